@@ -303,7 +303,7 @@ pub fn check<P: Prop>(tier: Tier, seed: u64) -> Report {
 
     // 1. witnesses of known findings (open: must still fail with its key -> KNOWN-FINDING line; fixed: must pass)
     // YV_SKIP_REGRESSION=1 (used only when measuring which seeded changes the *generated* search finds) skips the saved inputs of repaired defects
-    let skip_reg = std::env::var("YV_SKIP_REGRESSION").is_ok();
+    let skip_reg = std::env::var("YV_SKIP_REGRESSION").map(|v| v == "1").unwrap_or(false);
     for f in &findings {
         let Some(w) = &f.witness else { continue };
         if skip_reg && f.status != "open" { continue }
